@@ -336,11 +336,17 @@ def walk_stmt(cx, s, facts, cur):
         return facts
     if k == "switch":
         walk_expr(cx, s.get("cond"), facts, cur)
+        pre = kill(facts, writes(unit, s.get("cond")))
         facts = kill(facts, writes(unit, s))
         body = s.get("body")
-        # each case label starts with the facts before the switch
+        # a case label reached only by the jump (the statement before it exits: break/return/throw) starts with
+        # the facts before the switch; one that can be fallen into starts with those minus every write in the switch
+        state = EXIT
         for n in (body.get("ch", []) if body and body.get("k") == "compound" else [body]):
-            r = walk_stmt(cx, n, facts, cur)
+            if n is not None and n.get("k") in ("case", "default"):
+                state = walk_stmt(cx, n, pre if state == EXIT else facts, cur)
+            else:
+                state = walk_stmt(cx, n, facts if state == EXIT else state, cur)
         return facts
     if k in ("case", "default"):
         if s.get("value") is not None:
@@ -591,6 +597,12 @@ def requirement(cx, n, facts, cur=None):
                 R = T.norm(unit, recv)
                 ok = iter_not_end(cx, facts, R, recv)
                 return ("iterator deref", R, ok, "it != end()")
+        if n.get("opcall") == "++" and recv is not None:
+            rt = unit.ty(T.unwrap(unit, recv).get("t")) or ""
+            if any(it in rt for it in ITER_TYPES) and "insert_iterator" not in rt and "ostream" not in rt and "istream" not in rt:
+                R = T.norm(unit, recv)
+                ok = iter_not_end(cx, facts, R, recv)
+                return ("iterator increment", R, ok, "it != end()")
         if qn in ("std::prev",) and n.get("args"):
             a0 = T.unwrap(unit, n["args"][0])
             if a0 is not None and a0.get("k") == "call" and (_short(unit, a0) in ("end", "cend")) and a0.get("recv") is not None:
